@@ -470,7 +470,9 @@ class J1939_22:
                         del self._snd_buffer[bufid]
                         self.__put_bam_session(buf['session'])
                     elif buf['state'] == self.SendBufferState.TRANSMISSION_FINISHED:
+                        # RTS/CTS session aborted by the responder
                         del self._snd_buffer[bufid]
+                        self.__put_rts_cts_session(buf['session'])
                     else:
                         logger.critical('unknown SendBufferState %d', buf['state'])
                         del self._snd_buffer[bufid]
